@@ -52,21 +52,7 @@ def run(rep):
         else:
             rep.fail("relation-binding", "PayProof/revocation-parameters", "the revocation-commitment parameters influence neither the hash nor any acceptance atom", site=A2.ver.loc())
     # ---- channel id encoding
-    rep.rule("id-encoding", "ChannelId::to_scalar is the full-width little-endian embedding sum id[i]*256^i (mod q): every bit of the 32-byte id reaches the proof and the signed message with its own weight (collisions only at multiples of q, never between near ids)")
-    ts = method(prog, CHANNELID, "to_scalar")
-    if rep.anchor("ChannelId::to_scalar", ts):
-        from ..bytelin import full_embedding
-        rep.fn(ts)
-        S0 = Session(prog)
-        v = S0.eval(ts)
-        okb, why = (False, "no normal return") if v is None else full_embedding(S0, v, fld(arg(1), 0), 32)
-        pan = [o for o in S0.eng.obligations if o["kind"] in ("Unwrap",)] if okb else []
-        if okb and not pan:
-            rep.ok("id-encoding", "ChannelId::to_scalar", sample="from_raw of the four little-endian limbs = sum_{i<32} id[i]*256^i, total (no partial decode)")
-        elif okb:
-            rep.fail("id-encoding", "ChannelId::to_scalar", "the channel id encoding is partial (a decode can fail for some 32-byte ids)", site=ts.loc())
-        else:
-            rep.fail("id-encoding", "ChannelId::to_scalar", "channel ids differing in one byte can map to the same scalar: %s" % why, site=ts.loc())
+    id_encoding(rep)
     # ---- context
     cn = method(prog, CONTEXT, "new")
     ab = method(prog, CONTEXT, "as_bytes")
@@ -184,3 +170,24 @@ def contains_sub(t, needle):
                     lv(y)
     lv(needle)
     return any(contains_term(t, l) for l in leaves)
+
+
+def id_encoding(rep):
+    """ChannelId::to_scalar is the full-width byte-linear embedding (shared with C01 / C02 / C18 as a necessary
+    condition: the proofs bind the channel id only through this scalar)."""
+    prog = rep.prog
+    rep.rule("id-encoding", "ChannelId::to_scalar is the full-width little-endian embedding sum id[i]*256^i (mod q): every bit of the 32-byte id reaches the proof and the signed message with its own weight (collisions only at multiples of q, never between near ids)")
+    ts = method(prog, CHANNELID, "to_scalar")
+    if rep.anchor("ChannelId::to_scalar", ts):
+        from ..bytelin import full_embedding
+        rep.fn(ts)
+        S0 = Session(prog)
+        v = S0.eval(ts)
+        okb, why = (False, "no normal return") if v is None else full_embedding(S0, v, fld(arg(1), 0), 32)
+        pan = [o for o in S0.eng.obligations if o["kind"] in ("Unwrap",)] if okb else []
+        if okb and not pan:
+            rep.ok("id-encoding", "ChannelId::to_scalar", sample="from_raw of the four little-endian limbs = sum_{i<32} id[i]*256^i, total (no partial decode)")
+        elif okb:
+            rep.fail("id-encoding", "ChannelId::to_scalar", "the channel id encoding is partial (a decode can fail for some 32-byte ids)", site=ts.loc())
+        else:
+            rep.fail("id-encoding", "ChannelId::to_scalar", "channel ids differing in one byte can map to the same scalar: %s" % why, site=ts.loc())
